@@ -386,7 +386,47 @@ class PredEval:
                 except Exception:
                     return None
             return res
-        if fn == f"{INSP}.origin":
+        if fn == "builtins.type" and len(args) == 1:
+            a = args[0]
+            if isinstance(a, TypeArg):
+                return TypeArg("types.GenericAlias" if a.subscripted else "builtins.type")
+            return None
+        if fn == "builtins.isinstance" and len(args) == 2 and isinstance(args[0], TypeArg):
+            a, b = args
+            targets = b if isinstance(b, tuple) else (b,)
+            if a.flags or not all(isinstance(x, TypeArg) for x in targets):
+                return None
+            try:
+                import types as _types
+
+                if a.subscripted:
+                    return any(issubclass(_types.GenericAlias, oracle.stdlib_class(x.cls)) for x in targets)
+                return any(isinstance(oracle.stdlib_class(a.cls), oracle.stdlib_class(x.cls)) for x in targets)
+            except Exception:
+                return None
+        if fn == "inspect.isabstract" and args and isinstance(args[0], TypeArg) and not args[0].flags:
+            import inspect as _inspect
+
+            try:
+                return False if args[0].subscripted else _inspect.isabstract(oracle.stdlib_class(args[0].cls))
+            except Exception:
+                return None
+        if fn == "inspect.isroutine" and args and isinstance(args[0], TypeArg):
+            return False
+        if tm[1][0] == "attr" and tm[1][2] == "get" and T.refname(tm[1][1]) == f"{INSP}.GENERIC_TYPE_MAP" and args and isinstance(args[0], TypeArg):
+            a = args[0]
+            if a.subscripted:
+                return args[1] if len(args) > 1 else ("none",)
+            mapped = self.generic_map().get(a.cls)
+            if mapped is None:
+                for k, v in self.generic_map().items():
+                    try:
+                        if oracle.resolve(k) is oracle.resolve(a.cls) or getattr(oracle.resolve(k), "__origin__", None) is oracle.resolve(a.cls):
+                            mapped = v
+                    except Exception:
+                        pass
+            return TypeArg(mapped) if mapped else (args[1] if len(args) > 1 else ("none",))
+        if fn == f"{INSP}.origin" and not getattr(self, "interpret_origin", False):
             a = args[0] if args else None
             if not isinstance(a, TypeArg):
                 return None
@@ -431,6 +471,17 @@ class PredEval:
             nm = args[1] if len(args) > 1 else None
             if isinstance(a, TypeArg) and nm == "__annotations__":
                 return True if "annotated" in a.flags or "namedtuple+annotated" in a.flags else (args[2] if len(args) > 2 else None)
+            if isinstance(a, TypeArg) and nm == "__origin__":
+                if a.subscripted:
+                    return TypeArg(a.cls)
+                return args[2] if len(args) > 2 else None
+            if isinstance(a, TypeArg) and isinstance(nm, str) and not a.subscripted and not a.flags:
+                try:
+                    real = oracle.stdlib_class(a.cls)
+                    if not hasattr(real, nm):
+                        return args[2] if len(args) > 2 else ("raises",)
+                except Exception:
+                    return None
             return None
         if fn == "builtins.bool":
             v = args[0] if args else None
